@@ -254,7 +254,7 @@ def _unordered(e: ast.AST, fn: Func, depth: int = 0) -> Optional[ast.AST]:
     return None
 
 
-def _unordered_through(e: ast.AST, fn: Func) -> Optional[ast.AST]:
+def _unordered_through(e: ast.AST, fn: Func, _depth: int = 0) -> Optional[ast.AST]:
     """_unordered, also through order-preserving wrappers: core.filter_nodes(S, ..), filter(f, S), list / tuple / iter(S),
     a comprehension over S."""
     w = _unordered(e, fn)
@@ -274,6 +274,28 @@ def _unordered_through(e: ast.AST, fn: Func) -> Optional[ast.AST]:
                         for _s, v in bindings(fn).get(it.func.value.id, []):
                             if isinstance(v, ast.Call) and norm(v.func).endswith("defaultdict") and v.args and norm(v.args[0]) in ("set", "frozenset"):
                                 return v
+    # a dict FILLED while iterating a set keeps the set's order as its insertion order: D.items() / .keys() / .values() / D
+    dname = None
+    if isinstance(e, ast.Call) and isinstance(e.func, ast.Attribute) and e.func.attr in ("items", "keys", "values") and isinstance(e.func.value, ast.Name) and not e.args:
+        dname = e.func.value.id
+    elif isinstance(e, ast.Name):
+        dname = e.id
+    if dname is not None and _depth < 3:
+        is_dict = any(isinstance(v, (ast.Dict, ast.DictComp)) or (isinstance(v, ast.Call) and norm(v.func).split(".")[-1] in ("dict", "defaultdict", "OrderedDict", "Counter"))
+                      for _s, v in bindings(fn).get(dname, []) if v is not None)
+        if is_dict:
+            for lp in walk_own(fn.node):
+                if not isinstance(lp, ast.For):
+                    continue
+                fills = [x for x in ast.walk(lp) if isinstance(x, ast.Subscript) and isinstance(x.value, ast.Name) and x.value.id == dname
+                         and (isinstance(x.ctx, ast.Store) or (isinstance(parent(x), ast.Attribute) and isinstance(parent(parent(x)), ast.Call)
+                                                                and parent(x).attr in ("add", "append", "extend", "update")))]
+                fills += [x for x in ast.walk(lp) if isinstance(x, ast.Call) and isinstance(x.func, ast.Attribute) and x.func.attr == "setdefault"
+                          and isinstance(x.func.value, ast.Name) and x.func.value.id == dname]
+                if fills:
+                    w = _unordered_through(lp.iter, fn, _depth + 1)
+                    if w is not None:
+                        return w
     if isinstance(e, ast.Call):
         d = norm(e.func)
         if d.endswith("filter_nodes") and e.args:
